@@ -107,6 +107,13 @@ def rejected_ops(rng, ub, c):
         ("set_u:vector", lambda: ub.set_u([1, 2, 3])),
         ("set_u:non-numeric", lambda: ub.set_u([["a", 0, 0], [0, 1, 0], [0, 0, 1]])),
         ("set_ub:bad-shape", lambda: ub.set_ub(np.eye(4))),
+        ("set_ub:3x4", lambda: ub.set_ub(np.ones((3, 4)))),
+        ("set_ub:3x2", lambda: ub.set_ub([[1, 0], [0, 1], [0, 0]])),
+        ("set_ub:2x3", lambda: ub.set_ub(np.ones((2, 3)))),
+        ("set_ub:3x3x1", lambda: ub.set_ub(np.ones((3, 3, 1)))),
+        ("set_ub:non-numeric", lambda: ub.set_ub([["a", 0, 0], [0, 1, 0], [0, 0, 1]])),
+        ("set_u:3x4", lambda: ub.set_u(np.ones((3, 4)))),
+        ("set_u:4x3", lambda: ub.set_u(np.ones((4, 3)))),
         ("set_ub:ragged", lambda: ub.set_ub([[1, 0, 0], [0, 1], [0, 0, 1]])),
         ("calc_ub:unknown-tags", lambda: ub.calc_ub("zz", "yy")),
         ("calc_ub:index-above", lambda: ub.calc_ub(nr + no + 5, nr + no + 6)),
